@@ -547,8 +547,11 @@ func packetCase(m *mpkt) {
 		r.Violation("Marshal:error-on-valid-packet", fmt.Sprintf("Marshal = %v", err), cs())
 		return
 	}
+	holdMarshal(wire, cs)
 	if w2, err2 := lp.Marshal(); err2 != nil || !bytes.Equal(w2, wire) {
 		r.Violation("Marshal:not-repeatable", fmt.Sprintf("second Marshal differs (err=%v)", err2), cs())
+	} else {
+		holdMarshal(w2, cs)
 	}
 	r.Eval(1)
 	if fwdFramingBad[si] && (len(m.raws) > 0) {
@@ -567,7 +570,8 @@ func packetCase(m *mpkt) {
 	// own round trip
 	g := &nbtns.NBTNSPacket{}
 	var n int
-	p, v, st = mon.Guard(func() { n, err = g.Unmarshal(wire) })
+	own := append([]byte(nil), wire...) // the caller's buffer: overwritten after the call
+	p, v, st = mon.Guard(func() { n, err = g.Unmarshal(own) })
 	r.Eval(1)
 	switch {
 	case p:
@@ -579,6 +583,8 @@ func packetCase(m *mpkt) {
 			r.Violation("roundtrip:"+k, "Unmarshal(Marshal(p)) differs from p: "+d, cs())
 		} else if n != len(wire) {
 			r.Violation("Unmarshal:consumed", fmt.Sprintf("Unmarshal returned %d for a %d-byte packet without trailing bytes", n, len(wire)), cs())
+		} else {
+			afterUnmarshal(&m.Pkt, g, own, cs)
 		}
 	}
 	// reverse: the reference writer's bytes, without and with RR-name pointers
@@ -605,7 +611,8 @@ func packetCase(m *mpkt) {
 			kind = "rr-name-pointer"
 		}
 		g := &nbtns.NBTNSPacket{}
-		p, v, st = mon.Guard(func() { _, err = g.Unmarshal(b) })
+		in := append([]byte(nil), b...) // the caller's buffer: overwritten after the call
+		p, v, st = mon.Guard(func() { _, err = g.Unmarshal(in) })
 		r.Eval(1)
 		rcs := func() map[string]any { c := pktCase(m, b); c["writer"] = kind; return c }
 		if p {
@@ -620,6 +627,7 @@ func packetCase(m *mpkt) {
 			r.Violation("Unmarshal~ref:"+k+":"+kind, "library reads a valid RFC 1002 packet differently: "+d, rcs())
 			continue
 		}
+		afterUnmarshal(&m.Pkt, g, in, rcs)
 		if usePtr {
 			r.Count("reverse_pointer_packets", 1)
 			// what the library re-marshals is the same content for the reference
@@ -628,7 +636,7 @@ func packetCase(m *mpkt) {
 			r.Eval(1)
 			if p || err != nil {
 				r.Violation("remarshal:error", fmt.Sprintf("Marshal(Unmarshal(ref bytes)) fails: panic=%v err=%v", v, err), rcs())
-			} else if !fwdFramingBad[si] {
+			} else if holdMarshal(out, rcs); !fwdFramingBad[si] {
 				if ref, _, rerr := Parse(out); rerr != nil {
 					r.Violation("remarshal~ref:unparseable:"+errClass(rerr), fmt.Sprintf("reference cannot parse Marshal(Unmarshal(ref bytes)): %v", rerr), rcs())
 				} else if k, d := diffRef(&m.Pkt, ref); k != "" {
@@ -866,15 +874,18 @@ func main() {
 		return
 	}
 	r = mon.Start("C10", "exploration")
-	r.Rule("Names: 5 sixteen-byte base names x 16 positions x 256 byte values (exhaustive per position), every length 0..16 over 10 fill bytes with and without scope, scopes of 1..4 LDH labels (1, 62, 63 bytes; total wire length up to exactly 255), seeded random names; each compared with an independent RFC 1001 §14.1 encoder/decoder on the 16-byte space-padded form. Packets: every {0,1,4}^4 section-size combination, header/type/class/TTL boundary words, RDATA 0,1,2,6,12,255,256,65535, seeded random packets; Marshal output read by an independent RFC 1002 §4.2 parser and by Unmarshal, reference writer output (plain and with RR-name pointers) read by Unmarshal. Hostile packets (looping, forward, header and out-of-range name pointers, truncations, malformed labels) are fed to Unmarshal in a child process under a 20 s per-call CPU bound. Non-trivial: a name with a non-space byte or a scope; a packet with >=2 populated sections, a scope, or RDATA >= 255. The exhaustive flag refers to the per-position byte sweep only.")
+	r.Rule("Names: 5 sixteen-byte base names x 16 positions x 256 byte values (exhaustive per position), every length 0..16 over 10 fill bytes with and without scope, scopes of 1..4 LDH labels (1, 62, 63 bytes; total wire length up to exactly 255), seeded random names; each compared with an independent RFC 1001 §14.1 encoder/decoder on the 16-byte space-padded form. Packets: every {0,1,4}^4 section-size combination, header/type/class/TTL boundary words, RDATA 0,1,2,6,12,255,256,65535, seeded random packets; Marshal output read by an independent RFC 1002 §4.2 parser and by Unmarshal, reference writer output (plain and with RR-name pointers) read by Unmarshal. Hostile packets (looping, forward, header and out-of-range name pointers, truncations, malformed labels) are fed to Unmarshal in a child process under a 20 s per-call CPU bound. State carried between calls: every Marshal output is held in a ring of 64 beside a private copy and re-compared after each later call and at the end; every Unmarshal input is a private buffer overwritten with 0xAA after the call and the packet compared again (32 decoded packets are held and re-compared later; writing into decoded RDATA must not reach the input); a receiver that decoded packet A decodes packet B (both orders, big-then-small sizes) and must equal a fresh receiver; all fields of a packet / a name replaced between two Marshal / FirstLevelEncode calls; 8 goroutines marshal/unmarshal/encode unrelated small (<=500 byte) packets and must get the single-caller values. Non-trivial: a name with a non-space byte or a scope; a packet with >=2 populated sections, a scope, or RDATA >= 255. The exhaustive flag refers to the per-position byte sweep only.")
 	r.Assume("the reference in harness/c10/nbns1002.go is a correct reading of RFC 1001 §14.1 and RFC 1002 §4.1/§4.2 (it reproduces the RFC 1001 example and must read back its own packets, else inconclusive)",
 		"NetBIOS-name equality is equality of the 16-byte space-padded form (the library trims trailing spaces on decode)",
 		"names beginning with '*' may be refused (RFC 1001 §5.2)",
 		"header counts and RDLength are set by the caller to the section sizes / len(RData)",
+		"receiver reuse: Unmarshal into a packet that already decoded another one may leave the earlier questions in front of the new ones (it appends to Questions; counted as reuse_questions_accumulated, not judged); every other field must equal a fresh receiver's",
 		"scope labels: 1..63 bytes, letter first, letter/digit last, LDH inside; whole encoded name <= 255 bytes")
 	r.SetExhaustive(true)
 	names()
 	packets()
+	carryOver(boundaryPackets())
 	hostile()
+	heldFinal()
 	r.Finish()
 }
